@@ -20,6 +20,7 @@ func (g *G) genC07(p *Plan) {
 		c.MtimeRes = g.pick("ns", "ns", "s")
 	}
 	c.ClockStepMs = g.pick2(1, 7, 400)
+	c.BoltMmap = c.Backend == "bolt" && g.chance(0.85)
 	b := bucketNames[0]
 	c.Buckets = []string{b}
 	if c.Backend != "singlefs" && g.chance(0.15) {
@@ -91,6 +92,10 @@ func (g *G) genC07(p *Plan) {
 				if nup > 0 {
 					if g.chance(0.7) {
 						op = Op{K: "mpu-part", Up: g.rng.Intn(nup), Part: g.n(1, 3), Body: g.body(8 + g.rng.Intn(100))}
+						if role == "slow-uploader" || g.chance(0.2) {
+							op.Frag = g.pick("bytes", "random", "halves")
+							op.Faults = append(op.Faults, Fault{Kind: "stall", N: g.n(1, 4)})
+						}
 					} else {
 						op = Op{K: "mpu-complete", Up: g.rng.Intn(nup), Parts: []PartRef{{N: 1}, {N: 2}, {N: 3}}[:g.n(1, 3)]}
 					}
@@ -423,6 +428,14 @@ func (g *G) genC15(p *Plan) {
 	}
 	c.Buckets = bucketNames[:nb]
 	keys := append([]string{}, plainKeys[g.rng.Intn(len(plainKeys))]...)
+	if g.chance(0.25) {
+		// valid keys that look like the backends' own names
+		k := g.pick(".modtime-resolution/x", "metadata/x", "buckets/y", ".hidden/z", "_meta/k")
+		if c.Backend == "singlefs" && strings.HasPrefix(k, ".modtime-resolution") {
+			k = "metadata/x" // the single-bucket backend reserves the name of its probe file
+		}
+		keys = append(keys, k)
+	}
 	bkt := func() string { return c.Buckets[g.rng.Intn(len(c.Buckets))] }
 	key := func() string { return keys[g.rng.Intn(len(keys))] }
 	var ops []Op
@@ -732,7 +745,7 @@ func (g *G) rawRequest(c *Config, b string, keys []string, esc func(string) stri
 		return rq("copy:source", "PUT", target(bk, "copied", nil), [][2]string{{"X-Amz-Copy-Source", src}}, "")
 	case 7: // ranges
 		rg := g.pick("bytes=0-0", "bytes=-1", "bytes=5-", "bytes=9999999999999999999-", "bytes=-9223372036854775808", "bytes=3-1", "bytes=", "boats=1-2",
-			"bytes=0-0,2-3", "bytes= 1 - 2", "bytes=-", "bytes=18446744073709551615-18446744073709551616", "bytes=0-99999999999999999999")
+			"bytes=0-0,2-3", "bytes= 1 - 2", "bytes=-", "bytes=1-9223372036854775807", "bytes=0-9223372036854775807", "bytes=2-9223372036854775806", "bytes=18446744073709551615-18446744073709551616", "bytes=0-99999999999999999999")
 		return rq("get:range", g.pick("GET", "HEAD"), target(b, k, nil), [][2]string{{"Range", rg}}, "")
 	case 8: // versioning bodies
 		body := g.pick(`<VersioningConfiguration><Status>Enabled</Status></VersioningConfiguration>`, `<VersioningConfiguration><Status>Bogus</Status></VersioningConfiguration>`,
